@@ -8,7 +8,7 @@
 (*           value, key: key id, conf: confirmations)                      *)
 (*   txs   : set of [t, ins (set of <<t, n>>)]    transactions stored in   *)
 (*           the wallet database together with the outpoints they spend    *)
-(*   keys  : set of [id, change]                  keys of the wallet       *)
+(*   keys  : set of [id, change, acct]            keys of the wallet       *)
 (* Reported quantities are *derived*: Balance, Utxos, KeyBalance.          *)
 (*                                                                         *)
 (* Successor-set style: Succ(s, e) is the set of states allowed after      *)
@@ -32,6 +32,12 @@ RECURSIVE SumSeq(_, _)
 SumSeq(q, i) == IF i > Len(q) THEN 0 ELSE q[i].v + SumSeq(q, i + 1)
 
 InitS == [coins |-> {}, txs |-> {}, keys |-> {}]
+\* accounts: a key belongs to one account (keys: [id, change, acct]); a request draws on the coins of its account only, and
+\* the per-account quantities a wallet reports are derived the same way as the totals
+AcctOf(s, kid) == LET K == {k \in s.keys : k.id = kid} IN IF K = {} THEN 0 ELSE (CHOOSE k \in K : TRUE).acct
+UnspentA(s, a) == {c \in Unspent(s) : AcctOf(s, c.key) = a}
+BalanceA(s, a) == SumV(UnspentA(s, a))
+
 
 \* ---- receiving: one reported unspent output (utxo_add / one element of utxos_update)
 AddReported(s, r) ==
@@ -47,11 +53,15 @@ AddAll(s, rep, i) == IF i > Len(rep) THEN s ELSE AddAll(AddReported(s, rep[i]), 
 UtxosUpdate(s, rep, rescan) ==
     AddAll(IF rescan THEN [s EXCEPT !.coins = {[c EXCEPT !.spent = TRUE] : c \in @}] ELSE s, rep, 1)
 
+\* a full update asked for one account touches the outputs of that account only
+UtxosUpdateA(s, rep, rescan, a) ==
+    AddAll(IF rescan THEN [s EXCEPT !.coins = {IF AcctOf(s, c.key) = a THEN [c EXCEPT !.spent = TRUE] ELSE c : c \in @}] ELSE s, rep, 1)
+
 \* ---- creating a transaction.  q: the request, x: the transaction returned
 \* q = [recips: Seq([id, v]), fee (explicit, or -1), minconf, inkeys (set of key ids, {} = any), sweep: BOOLEAN,
-\*      feemin, feemax, nexplicit, explicit (set of <<t, n>>), above]
+\*      feemin, feemax, nexplicit, explicit (set of <<t, n>>), above, acct]
 \* x = [ins: Seq([t, n, v]), outs: Seq([v, key (own key id or 0), rid (index into recips or 0)]), fee, vsize]
-Spendable(s, q) == {c \in Unspent(s) : c.conf >= q.minconf /\ (q.inkeys = {} \/ c.key \in q.inkeys)}
+Spendable(s, q) == {c \in Unspent(s) : c.conf >= q.minconf /\ (q.inkeys = {} \/ c.key \in q.inkeys) /\ AcctOf(s, c.key) = q.acct}
 ReqTotal(q) == SumSeq(q.recips, 1)
 InsDistinct(x) == \A i, j \in 1..Len(x.ins) : i # j => <<x.ins[i].t, x.ins[i].n>> # <<x.ins[j].t, x.ins[j].n>>
 InputOK(s, q, in) == \E c \in Spendable(s, q) : c.t = in.t /\ c.n = in.n /\ c.v = in.v
